@@ -34,6 +34,87 @@ def vector_axis(e: ast.AST):
     return None, f"cannot read the alignment of `{norm_src(e)}`"
 
 
+class _Elem:
+    """Element-wise reading of broadcast expressions: the value of `expr[a, b]` / `expr[a]` / a scalar expression as an exact
+    rational function (sa/poly.py) over the atoms  <vector>[index], <matrix>[index, index], self.<option>.  Local names bound
+    exactly once are read through; `ma.array(x, mask=...)` is x at an unmasked cell; a pairwise-distance matrix is symmetric."""
+
+    def __init__(self, d):
+        from ..poly import R, NotPolynomial
+        self.R, self.NP = R, NotPolynomial
+        self.d = d
+        self.defs = {}
+        for n in own_nodes(d):
+            if isinstance(n, ast.Assign) and len(n.targets) == 1 and isinstance(n.targets[0], ast.Name):
+                self.defs.setdefault(n.targets[0].id, []).append(n.value)
+
+    def _sym_matrix(self, name, a, b):
+        vs = self.defs.get(name, [])
+        symmetric = len(vs) == 1 and any(t in norm_src(vs[0]) for t in ("linalg.norm", "cdist", "np.sqrt"))
+        if symmetric:
+            a, b = sorted((a, b))
+        return self.R.sym(f"{name}[{a},{b}]")
+
+    def scal(self, e, depth=0):
+        R = self.R
+        if depth > 6:
+            raise self.NP(e, "too deep")
+        if isinstance(e, ast.Constant) and isinstance(e.value, (int, float)) and not isinstance(e.value, bool):
+            from fractions import Fraction
+            return R.const(Fraction(str(e.value)) if isinstance(e.value, float) else e.value)
+        if isinstance(e, ast.Attribute) and isinstance(e.value, ast.Name) and e.value.id == "self":
+            return R.sym(f"self.{e.attr}")
+        if isinstance(e, ast.Name):
+            vs = self.defs.get(e.id, [])
+            if len(vs) == 1:
+                return self.scal(vs[0], depth + 1)
+            raise self.NP(e, "name without a single binding")
+        if isinstance(e, ast.UnaryOp) and isinstance(e.op, ast.USub):
+            return -self.scal(e.operand, depth + 1)
+        if isinstance(e, ast.BinOp) and isinstance(e.op, (ast.Add, ast.Sub, ast.Mult, ast.Div)):
+            a, b = self.scal(e.left, depth + 1), self.scal(e.right, depth + 1)
+            return {ast.Add: lambda: a + b, ast.Sub: lambda: a - b, ast.Mult: lambda: a * b, ast.Div: lambda: a / b}[type(e.op)]()
+        if isinstance(e, ast.Call) and (dotted(e.func) or "").rsplit(".", 1)[-1] in ("float", "item") and len(e.args) <= 1:
+            return self.scal(e.args[0] if e.args else e.func.value, depth + 1)
+        if isinstance(e, ast.Subscript):
+            sl = e.slice
+            if isinstance(sl, ast.Tuple) and len(sl.elts) == 2 and all(isinstance(x, ast.Name) for x in sl.elts):
+                return self.elem(e.value, sl.elts[0].id, sl.elts[1].id, depth + 1)
+            if isinstance(sl, ast.Name) and isinstance(e.value, ast.Name):
+                vs = self.defs.get(e.value.id, [])
+                # a vector allocated by np.zeros/... and filled element-wise is an atom per index
+                return R.sym(f"{e.value.id}[{sl.id}]")
+        raise self.NP(e, "scalar expression kind")
+
+    def elem(self, e, a, b, depth=0):
+        R = self.R
+        if depth > 6:
+            raise self.NP(e, "too deep")
+        if isinstance(e, ast.Name):
+            vs = self.defs.get(e.id, [])
+            if len(vs) == 1 and isinstance(vs[0], (ast.BinOp, ast.Call)) and not any(t in norm_src(vs[0]) for t in ("linalg.norm", "cdist", "np.zeros", "np.ones", "np.full", "np.empty")):
+                return self.elem(vs[0], a, b, depth + 1)
+            return self._sym_matrix(e.id, a, b)
+        if isinstance(e, ast.Call):
+            fn = dotted(e.func) or ""
+            if fn in ("ma.array", "np.ma.array", "ma.masked_array", "np.ma.masked_array", "ma.MaskedArray", "np.ma.MaskedArray") and e.args:
+                return self.elem(e.args[0], a, b, depth + 1)
+            if fn in ("np.where", "numpy.where") and len(e.args) == 3:
+                return self.elem(e.args[2], a, b, depth + 1)
+            raise self.NP(e, "call in a matrix expression")
+        if isinstance(e, ast.BinOp) and isinstance(e.op, (ast.Add, ast.Sub, ast.Mult, ast.Div)):
+            x, y = self.elem(e.left, a, b, depth + 1), self.elem(e.right, a, b, depth + 1)
+            return {ast.Add: lambda: x + y, ast.Sub: lambda: x - y, ast.Mult: lambda: x * y, ast.Div: lambda: x / y}[type(e.op)]()
+        if isinstance(e, (ast.Constant, ast.Attribute)):
+            return self.scal(e, depth + 1)
+        ax, _why = vector_axis(e)
+        if isinstance(e, ast.Subscript) and ax is not None and isinstance(e.value, ast.Name):
+            return R.sym(f"{e.value.id}[{a if ax == 0 else b}]")
+        if isinstance(e, ast.Call) is False and isinstance(e, ast.Subscript) is False:
+            raise self.NP(e, "matrix expression kind")
+        raise self.NP(e, "matrix expression kind")
+
+
 def run(ctx, col, tier):
     repo = ctx.repo
     col.rule("R-AXIS", "the balancing term (factor x accumulated path length) is broadcast along the "
@@ -147,8 +228,24 @@ def run(ctx, col, tier):
     col.check(f"furcations[{parent}] += 1" in src, R, q, d.loc(), "the parent's child count grows", "", "furcations[parent] += 1 missing", stmt="count")
     acc_ok = any(s in src for s in (f"{acc_name}[{child}] = {acc_name}[{parent}] + dis[{parent}, {child}]",
                                     f"{acc_name}[{child}] = {acc_name}[{parent}] + dis[{child}, {parent}]"))
-    col.check(acc_ok, R, q, d.loc(), "the new point's path length is the parent's plus the edge length", "",
-              f"{acc_name}[child] = {acc_name}[parent] + dis[parent, child] missing", stmt="acc")
+    acc_st = [n for n in own_nodes(d) if isinstance(n, ast.Assign) and len(n.targets) == 1 and norm_src(n.targets[0]) == f"{acc_name}[{child}]"]
+    decided = False
+    if len(acc_st) == 1 and not acc_ok:
+        # decide by value: the stored expression, read element-wise through the local definitions, against  acc[parent] + dis[parent, child]
+        try:
+            ev = _Elem(d)
+            got = ev.scal(acc_st[0].value)
+            want = ev.R.sym(f"{acc_name}[{parent}]") + ev._sym_matrix("dis", parent, child)
+            decided = True
+            same = got.same(want)
+            col.check(same, R, q, d.loc(acc_st[0]), "the new point's path length is the parent's plus the edge length (element-wise value of the stored expression)",
+                      f"{norm_src(acc_st[0])} == {want}", f"`{norm_src(acc_st[0])}` stores {got}, not {want}: the path length of the new point is not the parent's "
+                      f"path length plus the edge, so the balancing term of every later attachment below it is computed from a wrong length", stmt="acc", definite=True)
+        except Exception as x:  # noqa: BLE001 -- not a polynomial / unknown form: fall back to the shape rule
+            decided = False
+    if not decided:
+        col.check(acc_ok, R, q, d.loc(), "the new point's path length is the parent's plus the edge length", "",
+                  f"{acc_name}[child] = {acc_name}[parent] + dis[parent, child] missing", stmt="acc")
     col.check(f"conn[{child}] = True" in src, R, q, d.loc(), "the new point becomes connected", "", "conn[child] = True missing", stmt="conn")
     row = (lambda v: f"mask[{v}, :]") if parent_axis == 0 else (lambda v: f"mask[:, {v}]")
     colm = (lambda v: f"mask[:, {v}]") if parent_axis == 0 else (lambda v: f"mask[{v}, :]")
